@@ -169,7 +169,10 @@ def gen(rng, tier, quarantine=()):
             ops.append({"op": "exit", "id": pid, "exc": rng.random() < 0.3})
             done.append(pid)
         elif r < 0.65 and (live or done):
-            ops.append({"op": "reenter", "id": rng.choice(live + done)})
+            # one attempt, or several in a row, spelt either way
+            who = rng.choice(live + done)
+            for _ in range(rng.choice([1, 1, 2, 3])):
+                ops.append({"op": "reenter", "id": who, "how": rng.choice(["enter", "activate"])})
         elif r < 0.7 and done:
             ops.append({"op": "exit", "id": rng.choice(done), "again": True})
         elif r < 0.75 and live and "no-exit-hook" not in quarantine:
